@@ -3,6 +3,7 @@
 pub mod byz;
 pub mod chain;
 pub mod node;
+pub mod rounds;
 pub mod solo;
 pub mod universe;
 
@@ -20,7 +21,7 @@ use universe::*;
 
 pub const MAXN: usize = 4;
 pub const POOLW: usize = 12; // 768 pool items
-pub type PId = u16;
+pub type PId = u32;
 
 #[derive(Clone, Debug)]
 pub struct Cfg {
@@ -36,6 +37,8 @@ pub struct Cfg {
     pub canon_certs: bool,
     pub max_states: usize,
     pub wall_cap_s: f64,
+    /// pool items are not limited to the width of `GState::pool` (engines with their own state type)
+    pub big_pool: bool,
 }
 
 #[derive(Clone, Copy, Debug, PartialEq, Eq, Hash)]
@@ -215,7 +218,7 @@ impl Search {
             return *p;
         }
         let p = w.1.len();
-        if p >= POOLW * 64 {
+        if !self.cfg.big_pool && p >= POOLW * 64 {
             machinery_error("proto: pool bitset too small (raise POOLW)");
         }
         w.1.push((m, dst));
@@ -777,6 +780,7 @@ pub fn cfg_h4(r: u64, t: u8, tier: Tier) -> Cfg {
         canon_certs: true,
         max_states: tier.pick(3_000_000, 20_000_000),
         wall_cap_s: tier.pick(40.0, 240.0),
+        big_pool: false,
     }
 }
 
@@ -794,6 +798,7 @@ pub fn cfg_h3c(crashed: usize, r: u64, t: u8, tier: Tier) -> Cfg {
         canon_certs: true,
         max_states: tier.pick(3_000_000, 20_000_000),
         wall_cap_s: tier.pick(40.0, 240.0),
+        big_pool: false,
     }
 }
 
@@ -811,6 +816,7 @@ pub fn cfg_b4(byz: usize, r: u64, t: u8, k: u8, tier: Tier) -> Cfg {
         canon_certs: true,
         max_states: tier.pick(3_000_000, 20_000_000),
         wall_cap_s: tier.pick(40.0, 240.0),
+        big_pool: false,
     }
 }
 
